@@ -157,3 +157,48 @@ theorem no_false (steps : List Step) (res : List Thm)
   exact falseThm_not_valid ((check_proof_sound steps res hs h _ hm).valid trivModel)
 
 end Holpy.C01
+
+namespace Holpy.C01
+open Holpy
+
+/-! ### non-vacuity: the hypotheses are met by real derivations -/
+
+def xB : Term := .var "x" Ty.bool
+
+/-- `reflexive x; abstraction x; assume x; implies_intr x` -/
+def demoScript : List Step :=
+  [⟨"reflexive", .term xB, []⟩, ⟨"abstraction", .term xB, [0]⟩,
+   ⟨"assume", .term xB, []⟩, ⟨"implies_intr", .term xB, [2]⟩]
+
+def isOk {ε α} : Except ε α → Bool
+  | .ok _ => true
+  | .error _ => false
+
+/-- the checker model accepts the script (4 sequents, the second is `⊢ (λx. x) = (λx. x)`) -/
+example : isOk (runScript demoScript []) = true := by decide
+
+example : (match runScript demoScript [] with
+    | .ok ths => ths[1]? == some ⟨[], .comb (.comb (.const "equals"
+        (Ty.fn (Ty.fn Ty.bool Ty.bool) (Ty.fn (Ty.fn Ty.bool Ty.bool) Ty.bool)))
+        (.abs "x" Ty.bool (.bound 0))) (.abs "x" Ty.bool (.bound 0))⟩
+    | .error _ => false) = true := by decide
+
+/-- so `check_proof_sound` applies to it: all four sequents are valid in every model -/
+example : ∀ ths, runScript demoScript [] = .ok ths → ∀ th ∈ ths, Good th :=
+  fun ths h => check_proof_sound demoScript ths (by decide) h
+
+/-- `⊢ ∀A::bool. A` is not valid either, hence never derived -/
+theorem allFalseThm_not_valid : ¬ Valid trivModel allFalseThm := by
+  intro h
+  have h1 := h (fun _ _ _ => 0) (fun k n T => Model.size_pos _ _) (fun _ hm => by cases hm)
+  have : sem trivModel (fun _ _ _ => 0) [] [] allFalseThm.prop = 0 := by decide
+  simp [holds] at h1
+  omega
+
+theorem no_all_false (steps : List Step) (res : List Thm)
+    (hs : ∀ s ∈ steps, Arg.sigOK s.arg = true) (h : runScript steps [] = .ok res) :
+    allFalseThm ∉ res := by
+  intro hm
+  exact allFalseThm_not_valid ((check_proof_sound steps res hs h _ hm).valid trivModel)
+
+end Holpy.C01
